@@ -23,6 +23,8 @@ type vmCase struct {
 	c    *vlib.Ctx
 	wd   *vlib.Watchdog
 	in   *vlib.Instance
+	// nodes whose configuration stays undecodable: nothing is demanded for them, everything for the rest
+	undecodable map[string]bool
 	nc   *nats.Conn
 	mon  *vMonitor
 	d    *gdriver
@@ -127,6 +129,9 @@ func (v *vmCase) close() {
 // expectedPlacements: vNode placements the manager must serve, from the model.
 func (v *vmCase) expectedPlacements() map[string]bool {
 	g := v.d.g
+	if v.undecodable == nil {
+		v.undecodable = map[string]bool{}
+	}
 	containers := map[string]bool{g.Root: true}
 	var rec func(n string)
 	rec = func(n string) {
@@ -141,7 +146,7 @@ func (v *vmCase) expectedPlacements() map[string]bool {
 	out := map[string]bool{}
 	for cn := range containers {
 		for _, ch := range g.Children(cn, false) {
-			if g.Types[ch] == "vNode" {
+			if g.Types[ch] == "vNode" && !v.undecodable[ch] {
 				out[cn+"/"+ch] = true
 			}
 		}
@@ -179,6 +184,9 @@ func (v *vmCase) invariantI2() string {
 		}
 	}
 	for k, cl := range running {
+		if i := strings.LastIndex(k, "/"); i >= 0 && v.undecodable[k[i+1:]] {
+			continue // nothing is demanded for a node whose configuration cannot be decoded
+		}
 		if !want[k] {
 			return fmt.Sprintf("client #%d still running for %s, which is not a live configured placement", cl[0].Client, k)
 		}
@@ -345,8 +353,8 @@ func (v *vmCase) quiesce() (rounds int, bad string, err error) {
 func runC07(tier string, _ []string) int {
 	c := vlib.NewCtx("C07", tier, "exploration")
 	vlib.SetPortBlock(7)
-	c.SetRule("per case a fresh instance and a real client.Manager for an instrumented client type (vNode, children vChild, parent types group + vParent) registered through the public API; a PRNG history of ~15 operations (create vNode under root / group / nested group / vParent, add and remove vChild, delete and undelete vNodes and the groups holding them, mirror (of managed nodes and of the groups holding them), move, point updates, a vNode created with an undecodable configuration that is then corrected, delete / unrelated creation / undelete in quick succession) with 0-40 ms delays injected into the client's Run start / return and at the manager.beforeConstruct / cs.afterStop hook sites; after operations the harness forces a rescan (creating an unrelated node) and waits, in logical steps, for a scan that began afterwards; invariants: I1 never two clients of one placement at once (whole event log), I2 running set == live configured placements with children as constructed == live children (within 6 forced rescans, then stable for 2 more), I3 Manager.Stop stops every client and Run returns (in a quarter of the histories Stop comes right after the last operation, during the scans and restarts it caused). distinct = (operation kinds in the history, rounds needed, number of placements)")
-	c.Assume("the instrumented client's Run returns promptly when Stop is called; a configuration that stays undecodable is not generated (the property does not say what should run for it)")
+	c.SetRule("per case a fresh instance and a real client.Manager for an instrumented client type (vNode, children vChild, parent types group + vParent) registered through the public API; a PRNG history of ~15 operations (create vNode under root / group / nested group / vParent, add and remove vChild, delete and undelete vNodes and the groups holding them, mirror (of managed nodes and of the groups holding them), move, point updates, a vNode created with an undecodable configuration that is then corrected, delete / unrelated creation / undelete in quick succession, a deletion carried twice in one request, a vNode whose configuration stays undecodable (nothing is demanded for it, everything for the others)) with 0-40 ms delays injected into the client's Run start / return and at the manager.beforeConstruct / cs.afterStop hook sites; after operations the harness forces a rescan (creating an unrelated node) and waits, in logical steps, for a scan that began afterwards; invariants: I1 never two clients of one placement at once (whole event log), I2 running set == live configured placements with children as constructed == live children (within 6 forced rescans, then stable for 2 more), I3 Manager.Stop stops every client and Run returns (in a quarter of the histories Stop comes right after the last operation, during the scans and restarts it caused). distinct = (operation kinds in the history, rounds needed, number of placements)")
+	c.Assume("the instrumented client's Run returns promptly when Stop is called; for a node whose configuration stays undecodable nothing is demanded (the property does not say what should run for it)")
 	nHist := c.N(100, 600)
 	maxDelay := 40
 	wd := c.NewWatchdog()
@@ -459,6 +467,41 @@ func runC07(tier string, _ []string) int {
 					if err != nil || e != "" {
 						opErr = fmt.Errorf("correcting point refused: %v %s", err, e)
 					}
+				}
+			case k == 2 && scenario == 2:
+				// a node whose configuration cannot be decoded and stays that way: whatever happens to it, the
+				// other nodes (created before and after it, beside it and inside groups) keep getting their clients
+				op = "undecodable-stays"
+				bad := append(vnodePoints(), data.Point{Type: "chan", Time: d.now(), Value: []float64{-1, 256, 1e9}[r.Intn(3)], Origin: "harness"})
+				var n string
+				n, opErr = mkNode(pick(containers), "vNode", bad)
+				if opErr == nil {
+					if v.undecodable == nil {
+						v.undecodable = map[string]bool{}
+					}
+					v.undecodable[n] = true
+				}
+			case roll >= 84 && roll < 88 && len(vnodes) > 0:
+				// one request that carries the deletion twice, the effective point not being the first one
+				op = "delete-with-two-tombstones"
+				n := pick(vnodes)
+				if kidsAll := ofType("vChild"); len(kidsAll) > 0 && r.Chance(0.6) {
+					n = pick(kidsAll) // a child of a client's node is removed that way
+				}
+				ps := g.Parents(n, false)
+				if len(ps) == 0 {
+					continue
+				}
+				p := ps[r.Intn(len(ps))]
+				t1, t2 := d.now(), d.now()
+				pts := data.Points{{Type: data.PointTypeTombstone, Time: t1, Value: 0, Origin: "harness"}, {Type: data.PointTypeTombstone, Time: t2, Value: 1, Origin: "harness"}}
+				if r.Chance(0.5) {
+					// (or the restoring point last in the batch but older)
+					pts = data.Points{{Type: data.PointTypeTombstone, Time: t2, Value: 1, Origin: "harness"}, {Type: data.PointTypeTombstone, Time: t1, Value: 0, Origin: "harness"}}
+				}
+				e, err := d.sendEdge(n, p, pts)
+				if err != nil || e != "" {
+					opErr = fmt.Errorf("double tombstone: %v %s", err, e)
 				}
 			case roll >= 88 && roll < 92 && len(containers) >= 3:
 				// a group (with whatever it holds) becomes reachable along a second path: the placements of the
